@@ -2,6 +2,11 @@
 // harness (property C17): the real shellfuncsfile.Converter is driven through
 // its FS seam by an in-memory fs.FS with a per-entry fault plan, and its
 // result is compared with a reference payload computed from the tree.
+// Between the calls of a run the filter table may be edited (the reference
+// follows), calls may overlap (a call is held inside the simulated FS at a
+// chosen operation while others run; hand-overs are channel operations, one
+// goroutine runs at a time), and the FS may have a descriptor budget far above
+// what converting one file at a time needs.
 package fssim
 
 import (
@@ -28,6 +33,9 @@ const (
 	fOpen  = "open"  // Open of the entry fails (EIO)
 	fRead  = "read"  // Read fails (EIO) after k bytes have been delivered
 	fShort = "short" // every Read delivers 1..k bytes (not an error)
+	// fEmfile is not planted on an entry: it is the descriptor budget of the
+	// whole FS (Config.FDLimit) and fires when an Open finds it used up.
+	fEmfile = "emfile"
 )
 
 // node is one entry of the simulated tree.
@@ -62,6 +70,45 @@ type simFS struct {
 	opens  int64
 	closes int64
 	calls  int64
+	// descriptor budget (0: none) and the largest number of handles that
+	// were open at the same time
+	limit int
+	peak  int64
+	// cur is the call whose goroutine is running now, when the engine tells
+	// calls apart (counting FS operations, overlapping calls); nil otherwise.
+	// Exactly one goroutine runs at any time and every hand-over goes through
+	// a channel, so nothing here needs a lock.
+	cur *legState
+}
+
+// legState follows one From call through the file system.
+type legState struct {
+	ops    int // FS operations made so far
+	parkAt int // park when ops reaches this (0: never)
+	parked bool
+	event  chan int      // to the engine: evParked or evDone
+	resume chan struct{} // from the engine: go on
+	res    result
+	panicv string
+}
+
+const (
+	evParked = iota
+	evDone
+)
+
+// tick is called at the start of every FS operation.
+func (s *simFS) tick() {
+	l := s.cur
+	if l == nil {
+		return
+	}
+	l.ops++
+	if l.parkAt > 0 && l.ops == l.parkAt && !l.parked {
+		l.parked = true
+		l.event <- evParked
+		<-l.resume
+	}
 }
 
 func newSimFS() *simFS {
@@ -141,6 +188,7 @@ func faulted(kind string, ns ...*node) bool {
 }
 
 func (s *simFS) stat(name string) (fs.FileInfo, error) {
+	s.tick()
 	s.calls++
 	if !fs.ValidPath(name) {
 		return nil, perr("stat", name, fs.ErrInvalid)
@@ -162,6 +210,7 @@ func (s *simFS) stat(name string) (fs.FileInfo, error) {
 
 // Open implements fs.FS.
 func (s *simFS) Open(name string) (fs.File, error) {
+	s.tick()
 	s.calls++
 	if !fs.ValidPath(name) {
 		return nil, perr("open", name, fs.ErrInvalid)
@@ -178,7 +227,16 @@ func (s *simFS) Open(name string) (fs.File, error) {
 		s.fire(fOpen)
 		return nil, perr("open", name, syscall.EIO)
 	}
+	// the descriptor budget: every handle counts (directories too) and a
+	// closed handle gives its slot back
+	if s.limit > 0 && s.opens-s.closes >= int64(s.limit) {
+		s.fire(fEmfile)
+		return nil, perr("open", name, syscall.EMFILE)
+	}
 	s.opens++
+	if live := s.opens - s.closes; live > s.peak {
+		s.peak = live
+	}
 	h := &handle{s: s, n: n, name: name, statFault: faulted(fStat, ln, n)}
 	h.readLimit, h.short = -1, 0
 	for _, x := range []*node{ln, n} {
@@ -267,6 +325,7 @@ type handle struct {
 }
 
 func (h *handle) Stat() (fs.FileInfo, error) {
+	h.s.tick()
 	if h.closed {
 		return nil, perr("stat", h.name, fs.ErrClosed)
 	}
@@ -278,6 +337,7 @@ func (h *handle) Stat() (fs.FileInfo, error) {
 }
 
 func (h *handle) Close() error {
+	h.s.tick()
 	if h.closed {
 		return perr("close", h.name, fs.ErrClosed)
 	}
@@ -287,6 +347,7 @@ func (h *handle) Close() error {
 }
 
 func (h *handle) Read(p []byte) (int, error) {
+	h.s.tick()
 	if h.closed {
 		return 0, perr("read", h.name, fs.ErrClosed)
 	}
@@ -333,6 +394,7 @@ type dirHandle struct {
 // ReadDir returns the entries in "directory order", which here is reverse
 // name order on purpose: only fs.ReadDir (the function) promises sorting.
 func (d *dirHandle) ReadDir(n int) ([]fs.DirEntry, error) {
+	d.s.tick()
 	if d.closed {
 		return nil, perr("readdir", d.name, fs.ErrClosed)
 	}
